@@ -27,6 +27,7 @@ type Scope struct {
 	pkg   *ssa.Package
 	depth int
 	freshBound int
+	atInstr ssa.Instruction // the site (within block `at`) a site obligation is attached to: later assignments are not visible
 	anyLoop bool // names may denote the loop variables of any loop whose iteration is in progress
 	skolem int  // 0: quantifiers kept; 1: the formula is a proof goal; 2: the formula is an assumption
 	neg    bool // the current subformula has negative polarity in the top formula
@@ -1033,6 +1034,11 @@ func (s *Scope) lookup(name string) *Val {
 		return v
 	}
 	if s.fr != nil {
+		if s.anyLoop && s.atInstr != nil {
+			if v := s.fr.resolveNameBefore(name, s.at, s.atInstr, s.st); v != nil {
+				return v
+			}
+		}
 		if s.anyLoop && s.fr.li != nil {
 			var found *Val
 			n := 0
@@ -1071,6 +1077,52 @@ func (s *Scope) lookup(name string) *Val {
 	}
 	// qualified constant pkg.Name is parsed as sel; handled in evalSel? no: ids only
 	panic(sfail("unknown name %q", name))
+}
+
+// resolveNameBefore: the value a source variable has just before instruction `site` of block `at`:
+// the last DebugRef of the variable that precedes the site in its block, else the last one in the
+// nearest dominating block; a phi of a dominating block that carries the variable counts as its
+// definition there. nil if none is found.
+func (f *Frame) resolveNameBefore(name string, at *ssa.BasicBlock, site ssa.Instruction, st *State) *Val {
+	for b := at; b != nil; b = b.Idom() {
+		var found *ssa.DebugRef
+		for _, in := range b.Instrs {
+			if b == at && in == site {
+				break
+			}
+			if d, ok := in.(*ssa.DebugRef); ok {
+				if obj := d.Object(); obj != nil && obj.Name() == name {
+					found = d
+				}
+			}
+		}
+		if found != nil {
+			v, ok := f.env[found.X]
+			if !ok {
+				if k, isC := found.X.(*ssa.Const); isC {
+					v = f.c.constVal(k)
+				} else {
+					return nil
+				}
+			}
+			if found.IsAddr {
+				return f.c.load(st, v.T, deref(found.X.Type()))
+			}
+			return v
+		}
+		for _, in := range b.Instrs {
+			p, ok := in.(*ssa.Phi)
+			if !ok {
+				break
+			}
+			if p.Comment == name {
+				if v, ok := f.env[p]; ok {
+					return v
+				}
+			}
+		}
+	}
+	return nil
 }
 
 // resolveName finds the SSA value of a source variable at a program point.
